@@ -1,7 +1,7 @@
 (* Decidable comparisons used by the generated case shards (coq/Run): each case carries the inputs AND the
    observables the real code produced; [check_*] runs the model on the inputs and compares.  Trusted to
    state the comparison correctly (DESIGN.md, trusted base). *)
-From Connectome Require Import Values Attrs VM Edges Store NameSet.
+From Connectome Require Import Values Attrs VM Edges Store NameSet MiscGen.
 
 Definition which_eqb (a b : which) : bool := match a, b with WH, WH | WC, WC => true | _, _ => false end.
 
@@ -130,3 +130,33 @@ Fixpoint check_hops (gs : list hgraph) (σ : cstore) (k : nat) (ops : list hop) 
 Definition check_history (c : hcase) : nat :=
   if negb (forallb (fun G => cnt_eqb (count_entries (shape (hg G)) (leaves_of (hg G)) (hout G) 2) (hcounts G)) (hgraphs c)) then 4
   else check_hops (hgraphs c) (map (fun ck => (fst ck, new_cache (snd ck))) (hcaches c)) 1 (hops c).
+
+(* ---------- MemoryCache operation lists against Model/Store.v (C08): expected = (hit value, len) per op ---------- *)
+Inductive mcop := OGet (k : nat) | OSet (k v : nat) | OClear.
+Definition mkey (k : nat) : sval := SHash (HLeaf (VInt (Z.of_nat k))).
+Fixpoint check_mops (c : cache_state) (i : nat) (ops : list (mcop * (option nat * nat))) : nat :=
+  match ops with
+  | [] => 0
+  | (o, (hit, len)) :: rest =>
+      let '(r, c') := match o with
+                      | OGet k => c_get c (mkey k)
+                      | OSet k v => (None, c_set c (mkey k) (SVal (VNat v)))
+                      | OClear => (None, c_clear c) end in
+      let ok_hit := match o, r, hit with
+                    | OGet _, Some (SVal (VNat v)), Some w => Nat.eqb v w
+                    | OGet _, None, None => true
+                    | OGet _, _, _ => false
+                    | _, _, _ => true end in
+      if ok_hit && Nat.eqb (List.length (entries c')) len then check_mops c' (S i) rest else S i
+  end.
+Definition check_memcache (c : option nat * list (mcop * (option nat * nat))) : nat :=
+  check_mops (new_cache (KRam (fst c))) 0 (snd c).
+
+(* ---------- shards (C08): regenerated arithmetic against CachedColumn._get_shard; keys are given sorted ---------- *)
+Record shcase := { sh_keys : list string; sh_size : nat; sh_pos : nat;
+                   sh_exp_keys : list string; sh_exp_count : nat; sh_exp_idx : nat }.
+Definition check_shard (c : shcase) : nat :=
+  if list_eqb String.eqb (MiscGen.shard_keys (sh_keys c) (sh_size c) (MiscGen.shard_idx (sh_pos c) (sh_size c))) (sh_exp_keys c)
+     && Nat.eqb (MiscGen.shard_count (List.length (sh_keys c)) (sh_size c)) (sh_exp_count c)
+     && Nat.eqb (MiscGen.shard_idx (sh_pos c) (sh_size c)) (sh_exp_idx c)
+  then 0 else 1.
